@@ -140,27 +140,52 @@ def category_choice(prog, rep):
 def rule_match(prog, rep):
     rep.rule("MATCH", "Rule: an empty/absent regex compiles to None and match() is False then; candidate values are data.get(k) for select_keys, else all values; only str values are tested; the test is a found-anywhere regex call (search/findall/finditer); re.IGNORECASE is passed exactly when ignore_case is truthy")
     init = prog.func("Rule.__init__")
-    t = norm(init.node)
     rules = init.params[1]
-    asg = [n for n in walk_own(init.node) if isinstance(n, ast.Assign) and norm(n.targets[0]) == "self.regex"]
-    ok = False
-    why = "self.regex is not assigned once"
-    if len(asg) == 1 and isinstance(asg[0].value, ast.IfExp):
-        e = asg[0].value
-        from ..sqlmodel import single_def
+    from ..cfg import cfg_of, truth
+    from ..paths import inline_simple_locals
+    from ..sqlmodel import single_def
 
-        tv = e.test
-        tdef = single_def(init, norm(tv)) if isinstance(tv, ast.Name) else None
-        src_ok = tdef is not None and norm(tdef) in (f"{rules}.get('regex', None)", f"{rules}.get('regex')", f"{rules}.get('regex', '')")
-        none_ok = isinstance(e.orelse, ast.Constant) and e.orelse.value is None
-        c = e.body
-        comp_ok = isinstance(c, ast.Call) and norm(c.func) == "re.compile" and len(c.args) >= 1 and norm(c.args[0]) == norm(tv)
-        flag_ok = False
-        if comp_ok and len(c.args) == 2:
-            ft = norm(c.args[1])
-            flag_ok = ft in ("(re.IGNORECASE if self.ignore_case else 0) | re.UNICODE", "re.UNICODE | (re.IGNORECASE if self.ignore_case else 0)", "re.IGNORECASE if self.ignore_case else 0")
-        ok = src_ok and none_ok and comp_ok and flag_ok
-        why = f"regex construction `{norm(e)[:120]}`: " + ", ".join(x for x, y in (("regex source", src_ok), ("None for empty", none_ok), ("compile of the same string", comp_ok), ("IGNORECASE iff ignore_case", flag_ok)) if not y) + " not as required"
+    g = cfg_of(init)
+    # the local that holds the regex text
+    rx = None
+    for n in walk_own(init.node):
+        if isinstance(n, ast.Assign) and isinstance(n.targets[0], ast.Name) and norm(n.value) in (f"{rules}.get('regex', None)", f"{rules}.get('regex')", f"{rules}.get('regex', '')"):
+            rx = n.targets[0].id
+    cases = []
+    for path in g.paths(ends={g.exit}):
+        lits = set()
+        val = None
+        for nid, lab in path:
+            if lab and lab[0] == "cond":
+                lits.add((norm(lab[1]), lab[2]))
+            a = g.nodes[nid].ast
+            if g.nodes[nid].kind == "stmt" and isinstance(a, ast.Assign) and norm(a.targets[0]) == "self.regex":
+                val = a.value
+        if val is None:
+            cases.append((lits, None))
+        elif isinstance(val, ast.IfExp):
+            cases.append((lits | {(norm(val.test), True)}, val.body))
+            cases.append((lits | {(norm(val.test), False)}, val.orelse))
+        else:
+            cases.append((lits, val))
+    ok = rx is not None and bool(cases)
+    why = "the regex text is not read from rules['regex']" if rx is None else ""
+    FLAGS = ("(re.IGNORECASE if self.ignore_case else 0) | re.UNICODE", "re.UNICODE | (re.IGNORECASE if self.ignore_case else 0)", "re.IGNORECASE if self.ignore_case else 0")
+    for lits, val in cases:
+        if not ok:
+            break
+        if val is None:
+            ok, why = False, "self.regex is not assigned on every path"
+        elif (rx, True) in lits:
+            v = inline_simple_locals(val, init)
+            good = isinstance(v, ast.Call) and norm(v.func) == "re.compile" and len(v.args) == 2 and norm(v.args[0]) == rx and norm(inline_simple_locals(v.args[1], init)) in FLAGS
+            if not good:
+                ok, why = False, f"for a non-empty regex self.regex is `{norm(v)[:100]}`: it must be re.compile(<the regex text>, flags) with re.IGNORECASE exactly when ignore_case is truthy"
+        elif (rx, False) in lits:
+            if not (isinstance(val, ast.Constant) and val.value is None):
+                ok, why = False, f"for an empty / absent regex self.regex is `{norm(val)[:60]}` instead of None: the empty pattern matches everything"
+        else:
+            ok, why = False, f"self.regex is assigned without testing whether the regex text is empty (path condition {sorted(lits)})"
     rep.check(ok, "MATCH", init.short, "regex construction", "re.compile(regex, IGNORECASE iff ignore_case) if regex else None", why, init.loc())
     ic = [n for n in walk_own(init.node) if isinstance(n, ast.Assign) and norm(n.targets[0]) == "self.ignore_case"]
     rep.check(len(ic) == 1 and norm(ic[0].value) in (f"{rules}.get('ignore_case', False)",), "MATCH", init.short, "ignore_case", "rules.get('ignore_case', False)", "ignore_case is not read from the rule", init.loc())
@@ -177,26 +202,61 @@ def rule_match(prog, rep):
         b = [norm(s) for s in ifs[0].orelse]
         okv = a in ([f"values = [{e}.data.get(key, None) for key in self.select_keys]"], [f"values = [{e}.data.get(key) for key in self.select_keys]"]) and b in ([f"values = list({e}.data.values())"], [f"values = {e}.data.values()"])
     rep.check(okv, "MATCH", m.short, "candidate values", "data.get(k) for select_keys else all values", "candidate values are not 'selected keys if given, else all values'", m.loc())
-    # test
-    loops = [n for n in ast.walk(m.node) if isinstance(n, ast.For) and norm(n.iter) == "values"]
-    okt = False
-    why = "no loop over the candidate values"
-    if len(loops) == 1:
-        v = norm(loops[0].target)
-        guard = [n for n in ast.walk(m.node) if isinstance(n, ast.If) and norm(n.test) == "self.regex" and loops[0] in n.body]
-        inner = [n for n in loops[0].body if isinstance(n, ast.If)]
-        if guard and len(inner) == 1:
-            tt = norm(inner[0].test)
-            found = [f for f in ("search", "findall", "finditer") if tt == f"isinstance({v}, str) and self.regex.{f}({v})"]
-            if found and [norm(s) for s in inner[0].body] == ["return True"]:
-                okt = True
+    # test: a hit is reported only for a str value in which the regex is found anywhere, and only when a regex exists
+    gm = cfg_of(m)
+
+    def cond_ok(c, v):
+        t = norm(c)
+        return any(t == f"isinstance({v}, str) and self.regex.{f}({v})" for f in ("search", "findall", "finditer"))
+
+    hits = []
+    okt, why = False, "no per-value test found"
+    for n in walk_own(m.node):
+        if isinstance(n, ast.Return) and n.value is not None:
+            r = n.value
+            if isinstance(r, ast.Constant) and r.value is True:
+                hits.append(("loop", n))
+            elif isinstance(r, ast.Call) and norm(r.func) == "any" and len(r.args) == 1 and isinstance(r.args[0], (ast.GeneratorExp, ast.ListComp)):
+                hits.append(("any", n))
+            elif isinstance(r, ast.Constant) and r.value is False:
+                pass
             else:
-                why = f"the per-value test is `{tt}`: it must be 'is a str and the regex is found anywhere in it' (re.match/fullmatch only look at the start / the whole string)"
-        else:
-            why = "the value loop is not guarded by `if self.regex:`"
+                hits.append(("other", n))
+    if any(k == "other" for k, _ in hits):
+        why = f"match() returns `{norm([n for k, n in hits if k == 'other'][0].value)[:80]}`"
+    elif hits:
+        okt = True
+        for k, n in hits:
+            node = gm.node_of(n)
+            # only when a regex exists
+            reach = gm.reach_filtered(gm.entry, lambda u, v, lab: truth(lab, "self.regex") is not False)
+            guarded = node not in gm.reach_filtered(gm.entry, lambda u, v, lab: truth(lab, "self.regex") is not True)
+            if not guarded:
+                okt, why = False, "a hit can be reported although the rule has no regex (empty regex must never match)"
+                break
+            if k == "any":
+                ge = n.value.args[0]
+                gen = ge.generators[0]
+                if not (len(ge.generators) == 1 and norm(gen.iter) == "values" and not gen.ifs and cond_ok(ge.elt, norm(gen.target))):
+                    okt, why = False, f"the per-value test is `{norm(ge)[:100]}`: it must be 'is a str and the regex is found anywhere in it' over all candidate values"
+                    break
+            else:
+                # `return True` inside `for val in values:` under the per-value condition
+                from ..model import parent as _parent
+
+                p = _parent(n)
+                lp = p
+                while lp is not None and not isinstance(lp, ast.For):
+                    lp = _parent(lp)
+                if not (isinstance(p, ast.If) and lp is not None and norm(lp.iter) == "values" and cond_ok(p.test, norm(lp.target)) and n in p.body):
+                    tt = norm(p.test) if isinstance(p, ast.If) else "<unconditional>"
+                    okt, why = False, f"the per-value test is `{tt}`: it must be 'is a str and the regex is found anywhere in it' (re.match/fullmatch only look at the start / the whole string)"
+                    break
     rep.check(okt, "MATCH", m.short, "found-anywhere test on str values", "isinstance(val, str) and self.regex.search(val)", why, m.loc())
+    falls = [n for n in walk_own(m.node) if isinstance(n, ast.Return) and isinstance(n.value, ast.Constant) and n.value.value is False]
     last = m.node.body[-1]
-    rep.check(norm(last) == "return False", "MATCH", m.short, "default", "return False", "match() does not default to False", m.loc())
+    okd = bool(falls) or (isinstance(last, ast.Return) and isinstance(last.value, ast.Call) and norm(last.value.func) == "any")
+    rep.check(okd and isinstance(last, ast.Return), "MATCH", m.short, "default", "return False", "match() does not default to False", m.loc())
 
 
 def check(prog, rep):
